@@ -1,6 +1,7 @@
 // Instantiation driver (never linked or run): STL-free containers with ownership or a tagged union.
 #include "nmtools/utl.hpp"
 #include "nmtools/utility/small_vector.hpp"
+#include "nmtools/utility/small_vector.hpp"
 namespace utl = nmtools::utl;
 struct probe_t { int* p; probe_t(); probe_t(const probe_t&); probe_t& operator=(const probe_t&); ~probe_t(); };
 void drive(utl::vector<int>& v, const utl::vector<int>& o, utl::vector<double>& w, int x)
@@ -11,4 +12,10 @@ void drive(utl::vector<int>& v, const utl::vector<int>& o, utl::vector<double>& 
     utl::maybe<utl::vector<int>> m1; utl::maybe<utl::vector<int>> m2(o); utl::maybe<utl::vector<int>> m3(m2); m1 = m2;
     utl::either<utl::vector<int>,int> e1(o); utl::either<utl::vector<int>,int> e2(x); utl::either<utl::vector<int>,int> e3(e1); e2 = e1; e2 = x;
     (void)b;(void)c;(void)d;(void)m3;(void)e3;
+}
+// small_vector: inline storage up to DIM elements, heap beyond (C19 anchor utility/small_vector.hpp)
+void drive_small_vector(nmtools::small_vector<int,4>& sv, nmtools::small_vector<double>& sd, size_t n)
+{
+    sv.resize(n); sv.push_back(3); sd.resize(n); sd.push_back(2.0);
+    auto c = sv; (void)c; (void)sv.size(); (void)sv.at(0);
 }
